@@ -252,7 +252,8 @@ class StorageKeyMarkingConvention:
         Store a Kopf-branding marker to make this operator's prefix detectable.
         """
         value = 'yes'
-        if prefix and not prefix.startswith('kopf.'):
+        # Only the prefixes detectable on their own (i.e. the well-known ones) can go unmarked.
+        if prefix and not self._detect_marked_prefixes([f'{prefix}/{value}']):
             marker = f'{prefix}/kopf-managed'
             if marker not in body.metadata.annotations and marker not in patch.metadata.annotations:
                 patch.metadata.annotations[marker] = value
